@@ -560,61 +560,222 @@ func init() {
 			if loop == nil {
 				return []Obligation{mkOb(c, "TRO.scan-complete", u, "scan loop", fd, Undecided, "no for loop", false)}
 			}
-			// init: i := len(s.Frames) - 1 ; cond: i >= 0 ; post: i--
+			// The scan is decided over affine terms a*L + b*v + c, with L = len(Frames) and v the
+			// loop variable: the frame index at the first turn must be L-1, it must decrease by
+			// one per turn, and at the last turn the condition admits it must be 0.  Locals
+			// defined once as len(Frames) or as such a term are expanded.
+			type aff struct {
+				l, v, c int
+				ok      bool
+			}
 			var iObj types.Object
-			okInit, okCond, okPost := false, false, false
+			var term func(e ast.Expr, depth int) aff
+			singleDef := func(o types.Object) ast.Expr {
+				var def ast.Expr
+				n := 0
+				ast.Inspect(fd.Body, func(m ast.Node) bool {
+					switch x := m.(type) {
+					case *ast.AssignStmt:
+						for i, l := range x.Lhs {
+							if identObj(info, l) == o {
+								n++
+								if len(x.Lhs) == len(x.Rhs) && (x.Tok == token.DEFINE || x.Tok == token.ASSIGN) {
+									def = x.Rhs[i]
+								} else {
+									n++
+								}
+							}
+						}
+					case *ast.IncDecStmt:
+						if identObj(info, x.X) == o {
+							n += 2
+						}
+					}
+					return true
+				})
+				if n == 1 {
+					return def
+				}
+				return nil
+			}
+			term = func(e ast.Expr, depth int) aff {
+				e = ast.Unparen(e)
+				if depth > 6 {
+					return aff{}
+				}
+				if k, okc := intConst(info, e); okc {
+					return aff{0, 0, k, true}
+				}
+				switch x := e.(type) {
+				case *ast.Ident:
+					o := identObj(info, x)
+					if o != nil && o == iObj {
+						return aff{0, 1, 0, true}
+					}
+					if o != nil {
+						if d := singleDef(o); d != nil {
+							return term(d, depth+1)
+						}
+					}
+				case *ast.CallExpr:
+					if id, ok := ast.Unparen(x.Fun).(*ast.Ident); ok && id.Name == "len" && len(x.Args) == 1 && FieldOfSelector(info, x.Args[0]) == frames {
+						return aff{1, 0, 0, true}
+					}
+				case *ast.BinaryExpr:
+					l, r := term(x.X, depth+1), term(x.Y, depth+1)
+					if l.ok && r.ok {
+						switch x.Op {
+						case token.ADD:
+							return aff{l.l + r.l, l.v + r.v, l.c + r.c, true}
+						case token.SUB:
+							return aff{l.l - r.l, l.v - r.v, l.c - r.c, true}
+						}
+					}
+				}
+				return aff{}
+			}
+			// loop variable, first value, step
+			var first aff
+			step := 0
 			if as, ok := loop.Init.(*ast.AssignStmt); ok && len(as.Lhs) == 1 && len(as.Rhs) == 1 {
-				iObj = identObj(info, as.Lhs[0])
-				if be, ok := ast.Unparen(as.Rhs[0]).(*ast.BinaryExpr); ok && be.Op == token.SUB {
-					if k, okc := intConst(info, be.Y); okc && k == 1 {
-						if ce, ok := ast.Unparen(be.X).(*ast.CallExpr); ok && len(ce.Args) == 1 && FieldOfSelector(info, ce.Args[0]) == frames {
-							okInit = true
+				o := identObj(info, as.Lhs[0])
+				first = term(as.Rhs[0], 0) // evaluated before iObj is set: cannot mention v
+				iObj = o
+			}
+			if id, ok := loop.Post.(*ast.IncDecStmt); ok && iObj != nil && identObj(info, id.X) == iObj {
+				if id.Tok == token.DEC {
+					step = -1
+				} else {
+					step = 1
+				}
+			}
+			// last value of v admitted by the condition
+			var last aff
+			if be, ok := ast.Unparen(loop.Cond).(*ast.BinaryExpr); ok && iObj != nil && step != 0 {
+				op, x, y := be.Op, be.X, be.Y
+				if identObj(info, ast.Unparen(y)) == iObj { // mirrored: e OP v
+					x, y = y, x
+					switch op {
+					case token.LSS:
+						op = token.GTR
+					case token.LEQ:
+						op = token.GEQ
+					case token.GTR:
+						op = token.LSS
+					case token.GEQ:
+						op = token.LEQ
+					}
+				}
+				if identObj(info, ast.Unparen(x)) == iObj {
+					save := iObj
+					iObj = nil
+					bound := term(y, 0)
+					iObj = save
+					if bound.ok {
+						switch {
+						case step < 0 && op == token.GEQ, step > 0 && op == token.LEQ:
+							last = bound
+						case step < 0 && op == token.GTR:
+							last = aff{bound.l, 0, bound.c + 1, true}
+						case step > 0 && op == token.LSS:
+							last = aff{bound.l, 0, bound.c - 1, true}
 						}
 					}
 				}
 			}
-			if be, ok := ast.Unparen(loop.Cond).(*ast.BinaryExpr); ok && iObj != nil && identObj(info, be.X) == iObj {
-				if k, okc := intConst(info, be.Y); okc && ((be.Op == token.GEQ && k == 0) || (be.Op == token.GTR && k == -1)) {
-					okCond = true
+			// the frame index: every index into Frames inside the loop body
+			var idxs []aff
+			idxLocals := map[types.Object]bool{}
+			isFrameIndex := func(e ast.Expr) (*ast.IndexExpr, bool) {
+				e = ast.Unparen(e)
+				if ue, ok := e.(*ast.UnaryExpr); ok && ue.Op == token.AND {
+					e = ast.Unparen(ue.X)
 				}
+				ix, ok := e.(*ast.IndexExpr)
+				if ok && FieldOfSelector(info, ix.X) == frames {
+					return ix, true
+				}
+				return nil, false
 			}
-			if id, ok := loop.Post.(*ast.IncDecStmt); ok && id.Tok == token.DEC && identObj(info, id.X) == iObj {
-				okPost = true
-			}
-			if okInit && okCond && okPost {
-				obs = append(obs, mkOb(c, "TRO.scan-complete", u, "scan range", loop, Proved, "i runs from len(Frames)-1 down to 0", true))
-			} else {
-				obs = append(obs, mkOb(c, "TRO.scan-complete", u, "scan range", loop, Violated, "the terminal-chain scan does not cover every frame from the top to the bottom of the stack", true))
-			}
-			// conditions inside the loop mention only Frames[i].<field> against constants / fid
-			ord := &ordinal{}
 			ast.Inspect(loop.Body, func(n ast.Node) bool {
-				is, ok := n.(*ast.IfStmt)
-				if !ok {
-					return true
+				if ix, ok := n.(*ast.IndexExpr); ok && FieldOfSelector(info, ix.X) == frames {
+					idxs = append(idxs, term(ix.Index, 0))
 				}
+				if as, ok := n.(*ast.AssignStmt); ok && len(as.Lhs) == len(as.Rhs) {
+					for i, r := range as.Rhs {
+						if _, ok := isFrameIndex(r); ok {
+							if o := identObj(info, as.Lhs[i]); o != nil && singleDef(o) != nil {
+								idxLocals[o] = true
+							}
+						}
+					}
+				}
+				return true
+			})
+			covers := first.ok && last.ok && step != 0 && len(idxs) > 0
+			why := ""
+			for _, ix := range idxs {
+				if !covers {
+					break
+				}
+				if !ix.ok {
+					covers, why = false, "a frame index is not an affine term of the loop variable"
+					break
+				}
+				at := func(v aff) aff { return aff{ix.l + ix.v*v.l, 0, ix.c + ix.v*v.c, true} }
+				f, l := at(first), at(last)
+				if !(f.l == 1 && f.c == -1) {
+					covers, why = false, "the first frame examined is not the top frame (index len(Frames)-1)"
+				} else if ix.v*step != -1 {
+					covers, why = false, "the scan does not move one frame towards the bottom per turn"
+				} else if !(l.l == 0 && l.c == 0) {
+					covers, why = false, "the last frame the loop condition admits is not the bottom frame (index 0)"
+				}
+			}
+			if covers {
+				obs = append(obs, mkOb(c, "TRO.scan-complete", u, "scan range", loop, Proved, "the frame index runs from len(Frames)-1 down to 0, one frame per turn", true))
+			} else {
+				if why == "" {
+					why = "loop variable, bound or step not recognised"
+				}
+				obs = append(obs, mkOb(c, "TRO.scan-complete", u, "scan range", loop, Violated, "the terminal-chain scan does not cover every frame from the top to the bottom of the stack: "+why, true))
+			}
+			// conditions inside the loop mention only fields of the frame under the index against
+			// constants / fid
+			ord := &ordinal{}
+			var recv types.Object
+			if fd.Recv != nil && len(fd.Recv.List) > 0 && len(fd.Recv.List[0].Names) > 0 {
+				recv = info.Defs[fd.Recv.List[0].Names[0]]
+			}
+			checkCond := func(cond ast.Expr, at ast.Node) {
 				good := true
-				ast.Inspect(is.Cond, func(m ast.Node) bool {
+				ast.Inspect(cond, func(m ast.Node) bool {
 					id, ok := m.(*ast.Ident)
 					if !ok {
 						return true
 					}
 					o := info.Uses[id]
 					if v, ok := o.(*types.Var); ok && !v.IsField() {
-						// allowed variables: i (as index), the receiver, the fid parameter
-						if o == iObj {
-							// must appear only as an index
+						// allowed variables: the loop variable and locals defined from it / from
+						// len(Frames) (as index), a local holding the frame, the receiver, a parameter
+						if o == iObj || idxLocals[o] || o == recv {
 							return true
 						}
-						if _, isParam := o.(*types.Var); isParam && (v.Name() == "fid" || v == info.Defs[fd.Recv.List[0].Names[0]]) {
+						if t := term(id, 0); t.ok {
 							return true
+						}
+						sig := fn.Type().(*types.Signature)
+						for i := 0; i < sig.Params().Len(); i++ {
+							if sig.Params().At(i) == o {
+								return true
+							}
 						}
 						good = false
 					}
 					return true
 				})
-				// i must not be compared: conditions of the form `i < k` / `len(..)-i > k`
-				ast.Inspect(is.Cond, func(m ast.Node) bool {
+				// the position must not be compared: `i < k`, `len(..)-i > k`
+				ast.Inspect(cond, func(m ast.Node) bool {
 					be, ok := m.(*ast.BinaryExpr)
 					if !ok {
 						return true
@@ -625,11 +786,27 @@ func init() {
 					}
 					return true
 				})
-				construct := ord.next("exit condition " + types.ExprString(is.Cond))
+				construct := ord.next("exit condition " + types.ExprString(cond))
 				if good {
-					obs = append(obs, mkOb(c, "TRO.scan-complete", u, construct, is, Proved, "decided by fields of Frames[i] only", false))
+					obs = append(obs, mkOb(c, "TRO.scan-complete", u, construct, at, Proved, "decided by fields of the frame under the index only", false))
 				} else {
-					obs = append(obs, mkOb(c, "TRO.scan-complete", u, construct, is, Violated, "an exit of the terminal-chain scan depends on something other than the frames' own flags (e.g. a distance bound): longer tail chains are no longer recognised and the stack grows", true))
+					obs = append(obs, mkOb(c, "TRO.scan-complete", u, construct, at, Violated, "an exit of the terminal-chain scan depends on something other than the frames' own flags (e.g. a distance bound): longer tail chains are no longer recognised and the stack grows", true))
+				}
+			}
+			ast.Inspect(loop.Body, func(n ast.Node) bool {
+				switch x := n.(type) {
+				case *ast.IfStmt:
+					checkCond(x.Cond, x)
+				case *ast.SwitchStmt:
+					if x.Tag == nil {
+						for _, cl := range x.Body.List {
+							if cc, ok := cl.(*ast.CaseClause); ok {
+								for _, e := range cc.List {
+									checkCond(e, cc)
+								}
+							}
+						}
+					}
 				}
 				return true
 			})
